@@ -36,6 +36,11 @@ def run(ctx):
     for pause, n in ((150, 64 if ctx.quick else 600), (1100, 0 if ctx.quick else 48)):
         for s in prnd.sample(inside, min(n, len(inside))):
             scs.append(dict(s, pause=pause))
+    # a slow consumer: the call-back takes a few ms while the writer has long finished and closed (what was read ahead
+    # must still be delivered, in order, before the end of the stream is reported)
+    multi = [s for s in scs if s["stream"].count("d") >= 2 and not s.get("pause")]
+    for s in prnd.sample(multi, min(64 if ctx.quick else 600, len(multi))):
+        scs.append(dict(s, cuts=[], slowcb=4))
     sp = ctx.path("scen.jsonl")
     with open(sp, "w") as f:
         for s in scs:
@@ -52,10 +57,12 @@ def run(ctx):
         ctx.violation("%s" % b["what"],
                       "%s: stream %s cut at %s%s, call-back error at record %d: the ingester called back with %s and "
                       "returned %s (%s)" % (b["what"], "".join(r["stream"]), r["cuts"],
-                                            " with %d ms of silence after every write" % r["pause"] if r.get("pause") else "",
+                                            (" with %d ms of silence after every write" % r["pause"] if r.get("pause") else "")
+                                            + (" with a call-back that takes %d ms" % r["slowcb"] if r.get("slowcb") else ""),
                                             r["errAt"], r["calls"], r["ret"], r["rets"]),
                       {"kind": "framing-scenario", "scenario": {"stream": r["stream"], "cuts": r["cuts"],
-                                                                 "errAt": r["errAt"], "pause": r.get("pause", 0)},
+                                                                 "errAt": r["errAt"], "pause": r.get("pause", 0),
+                                                                 "slowcb": r.get("slowcb", 0)},
                        "observed": r})
     # binding self-test
     recs = [json.loads(l) for l in open(tp)]
